@@ -769,6 +769,17 @@ pub fn run(tier: Tier) -> i32 {
                     }
                     Ok(mb) => {
                         if mb.metadata == block.metadata {
+                            // a leaf edit that the reference table calls a change of content, read
+                            // back as the very value that was signed: two documents a consumer can
+                            // tell apart share one signed form
+                            if let Some(e) = ename.strip_prefix("leaf:") {
+                                let keeps = if dname == "layout" { crate::tamper::keeps_layout_content(e, true) } else { crate::tamper::keeps_link_content(e, &bv["signed"]) };
+                                if !keeps {
+                                    acc.outcome("edit-lost-on-reading");
+                                    acc.violation(&format!("edit-lost-on-reading:{dname}:{}", crate::tamper::kind_of(e)), &format!("{dname} edited after signing ({ename}) is read back as the value that was signed: the edited file and the signed one share their signed bytes"), witness);
+                                    continue;
+                                }
+                            }
                             acc.outcome("edit-is-identity-on-parsed-value");
                             continue;
                         }
